@@ -191,6 +191,16 @@ def expected_reader(s):
     return "err" if fails else "ok"
 
 
+def writer_dict(s):
+    """Dictionary size a writer scenario is run with (harness mt.rs): `dict_size` if given, else min(64 KiB, unit), >= 4 KiB."""
+    return max(4096, s["dict_size"]) if s.get("dict_size") else min(65536, max(4096, s["unit_len"]))
+
+
+def writer_unit(s):
+    """Unit size the property speaks of: the configured chunk / member size, raised to the dictionary size when smaller."""
+    return max(max(1, s["unit_len"]), writer_dict(s))
+
+
 def judge(s, r):
     """Property-level oracles on one run. Returns list of (property, what, sig)."""
     v = []
@@ -258,7 +268,7 @@ def judge(s, r):
                 v.append(("C08", f"{fam}: output does not decode to the written bytes (decoded {r['decoded_len']} of {r['input_len']}) ({cls})",
                           dict(base, outcome="wrong_bytes")))
             us = r["unit_sizes"]
-            unit = s["unit_len"]
+            unit = writer_unit(s)
             # flush points legitimately cut units early; without flush every unit except the last is exact
             if "flush" not in calls and us and any(u != unit for u in us[:-1]):
                 v.append(("C18", f"{fam}: unit sizes {us} with configured size {unit}", dict(base, outcome="unit_size")))
